@@ -5,10 +5,11 @@
       contrib/candler/tickcandler/tickcandler.go:58-105      TickCandler.Accum
       contrib/candler/candlecandler/candlecandler.go:60-124  CandleCandler.Accum
       utils/timeframe.go:112-167           CandleDuration.IsWithin / Truncate   for the suffixes Sec, Min, H, D
-      utils/io/columnseries.go:73-95       ColumnSeries.GetTime (system timezone = UTC, the default)
+      utils/io/columnseries.go:73-95       ColumnSeries.GetTime (in the system timezone)
     Instants are nanoseconds since the Unix epoch (Z).  Time.Truncate(d) is absolute time since
-    0001-01-01 00:00 UTC; the "D" suffix truncates to the calendar day, which in UTC is the floor to a
-    multiple of 24 h since the Unix epoch (a "2D" candle therefore still has one-day windows: quirk kept).
+    0001-01-01 00:00 UTC; the "D" suffix truncates to the LOCAL calendar day of the system timezone ([cd_ds];
+    executable instances: zones at a fixed UTC offset, UTC = offset 0, where it is the floor to a multiple of
+    24 h of local time) — a "2D" candle therefore still has one-day windows: quirk kept.
     Quirks kept: a candle whose OpenTime is the zero time.Time counts as not yet initialised
     ([zero_time]); open/close change only on strictly earlier/later timestamps (the first row in input
     order wins among equal timestamps); high/low use [>]/[<] only (NaN semantics of Go); sums are
@@ -26,23 +27,29 @@ Definition zero_time : Z := - abs_epoch_ns.             (* time.Time{} *)
 (** time.Time.Truncate(d) *)
 Definition time_truncate (t d : Z) : Z := if d <=? 0 then t else t - (t + abs_epoch_ns) mod d.
 
-(** a *utils.CandleDuration for the suffixes Sec, Min, H (absolute truncation) and D (calendar day) *)
-Record cdur := { cd_day : bool; cd_dur : Z }.
+(** a *utils.CandleDuration for the suffixes Sec, Min, H (absolute truncation) and D (calendar day), together
+    with the system timezone as far as candles see it: [cd_ds t] = the instant of local midnight of t's local
+    calendar day (time.Date(y, m, d, 0, 0, 0, 0, loc) of t.In(loc).Date()) *)
+Record cdur := { cd_day : bool; cd_dur : Z; cd_ds : Z -> Z }.
 
 Fixpoint slookup (l : list (string * Z)) (k : string) : Z :=
   match l with [] => 0 | (k', v) :: r => if String.eqb k k' then v else slookup r k end.
 
-(** utils/timeframe.go:224 after the regexp matched (mult, suffix) *)
-Definition cd_of (mult : Z) (suffix : string) : cdur :=
-  {| cd_day := String.eqb suffix "D"; cd_dur := wrap I64 (mult * slookup agg_suffixDefs suffix) |}.
+(** local midnight in a zone at the fixed UTC offset [off] (ns; east positive) *)
+Definition day_start (off t : Z) : Z := t - (t + off) mod agg_Day.
+
+(** utils/timeframe.go:224 after the regexp matched (mult, suffix); system zone at fixed offset [off] *)
+Definition cd_of_zone (off mult : Z) (suffix : string) : cdur :=
+  {| cd_day := String.eqb suffix "D"; cd_dur := wrap I64 (mult * slookup agg_suffixDefs suffix); cd_ds := day_start off |}.
+Definition cd_of : Z -> string -> cdur := cd_of_zone 0.          (* UTC, the default *)
 
 (** utils/timeframe.go:158 *)
 Definition truncate (cd : cdur) (t : Z) : Z :=
-  if cd_day cd then t - t mod agg_Day else time_truncate t (cd_dur cd).
+  if cd_day cd then cd_ds cd t else time_truncate t (cd_dur cd).
 
-(** utils/timeframe.go:112 *)
+(** utils/timeframe.go:112 ("D": equal local calendar dates, i.e. equal local midnights) *)
 Definition is_within (cd : cdur) (ts start : Z) : bool :=
-  if cd_day cd then (ts / agg_Day =? start / agg_Day) else (time_truncate ts (cd_dur cd) =? start).
+  if cd_day cd then (cd_ds cd ts =? cd_ds cd start) else (time_truncate ts (cd_dur cd) =? start).
 
 (** one input row after column extraction: a tick has o = h = l = c = price *)
 Record bar := { b_t : Z; b_o : f32; b_h : f32; b_l : f32; b_c : f32; b_acc : list f32 }.
